@@ -131,7 +131,7 @@ func (d *dagAPI) Get(ctx context.Context, c cid.Cid) (ipld.Node, error) {
 		w.mu.Unlock()
 		return decodeBlock(c, data)
 	}
-	if w.Offline {
+	if w.Offline || d.inc.offline {
 		w.mu.Unlock()
 		return nil, ipld.ErrNotFound{Cid: c}
 	}
